@@ -10,8 +10,12 @@ import yaml
 
 
 def default_solver_callback(solution: lx.Solution) -> None:
-    num_steps = solution.stats['num_steps']
-    ok = num_steps < solution.stats['max_steps']
+    # direct solvers (LU, ...) report no iteration count; iterative ones may have no limit (max_steps=None)
+    num_steps = solution.stats.get('num_steps')
+    if num_steps is None:
+        return
+    max_steps = solution.stats.get('max_steps')
+    ok = max_steps is None or num_steps < max_steps
     if ok:
         print(f'Converged in {num_steps} iterations')
     else:
